@@ -9,7 +9,10 @@ FAMILIES = {'C05': ['streams', 'topics', 'groups', 'seeded', 'users', 'race'], '
             'C13': ['streams', 'topics', 'users'],
             # C08 "assigned to exactly one CURRENT member": memberships across several topics and streams (joins, leaves, dropped
             # connections, deletions) are a relation of the catalogue; the group lens itself works on one topic
-            'C08': ['groups', 'seeded']}
+            'C08': ['groups', 'seeded'],
+            # C16 "server statistics ... exact stream, topic, partition, segment and consumer-group counts", and reported sizes =
+            # stored bytes for messages sent over EVERY transport (the topic lens sends over TCP only)
+            'C16': ['topics', 'seeded']}
 
 BASE = dict(SIds='{0}', SNames='{"sa"}', TIds='{0}', TNames='{"ta"}', GIds='{0}', GNames='{"ga"}', UNames='{"alice"}',
             Clients='{1}', MaxId=3, Seeded='FALSE')
@@ -192,6 +195,8 @@ def attribute(prop, scn, events_bad):
         return [(i, ev, lab) for i, (ev, labels) in sorted(events_bad.items()) for lab in labels]
     if prop == 'C08':
         return [(i, ev, lab) for i, (ev, labels) in sorted(events_bad.items()) for lab in labels if lab[0] in ('CAT.members',) or lab[0].startswith('X.')]
+    if prop == 'C16':
+        return [(i, ev, lab) for i, (ev, labels) in sorted(events_bad.items()) for lab in labels if lab[0] in ('CAT.stats', 'CAT.sizes') or lab[0].startswith('X.')]
     for i, (ev, labels) in sorted(events_bad.items()):
         before = events_bad.get(i - 1, (None, []))[1]
         for lab in labels:
@@ -222,6 +227,8 @@ def nontrivial(prop, scn, evs):
     mixed = any(s['id'] == 0 for s in creates) and any(s['id'] != 0 for s in creates)
     if prop == 'C13':
         return scn['cfg'].get('transport') == 'http' or len(ops) >= 4
+    if prop == 'C16':
+        return any(o in ops for o in ('send', 'create_topic')) and len(ops) >= 3
     if prop == 'C08':
         return any(o in ops for o in ('join',)) and any(o in ops for o in ('disconnect', 'expire', 'leave', 'delete_topic', 'delete_stream', 'delete_group'))
     if prop == 'C19':
@@ -235,6 +242,7 @@ RULES = {
     'C06': 'scenario contains a refused (invalid) command or a delete',
     'C19': 'encrypted journal: creates followed by a restart (the journal is decrypted and replayed)',
     'C13': 'catalogue scenario over HTTP/JSON, or of >= 4 commands over TCP, with seeded boundary-length names',
+    'C16': 'catalogue scenario of >= 3 commands with a send or a topic creation (statistics and sizes observed after every step)',
     'C08': 'scenario with a join and a leave / dropped connection / deletion (memberships over several topics)',
 }
 ASSUMPTIONS = ['server-chosen ids are bound from the response and only required to be free in their scope',
